@@ -1,6 +1,7 @@
 (* C05 — built transactions conserve value exactly.  Pinned statements only (proofs: Builder/*Proofs.v). *)
 From CSL Require Import Base.Prelude Base.U64 Num.Value Deposits.Deposits Builder.Totals Builder.TotalsProofs
-  Builder.Change Builder.ChangeProofs Builder.Scenario Builder.ScenarioProofs Builder.MoreEntry Builder.MoreEntryProofs Builder.TerminationProofs Builder.DirectionProofs Builder.TxReader Builder.TxReaderExamples.
+  Builder.Change Builder.ChangeProofs Builder.Scenario Builder.ScenarioProofs Builder.MoreEntry Builder.MoreEntryProofs Builder.TerminationProofs Builder.DirectionProofs Builder.TxReader Builder.TxReaderExamples Builder.GivenValues.
+From CSL Require Import Num.ValueNorm Num.ValueNormProofs.
 From CSL Require Collateral.Collateral.
 From Coq Require Import Permutation.
 Local Open Scope N_scope.
@@ -146,6 +147,22 @@ Print Assumptions C05_change_loop_terminates.
 Theorem C05_recorded_oracle_answers : oracle_answers tape_oracle.
 Proof. exact tape_oracle_answers. Qed.
 Print Assumptions C05_recorded_oracle_answers.
+
+(* the normaliser applied to every input amount (Value::without_empty_entries, /repo bb8d7fa) changes no quantity: what the
+   builder stores denotes the value it was given.  (The seeded change C05-m7 - dropping a whole policy that holds one
+   zero quantity - violates exactly this.) *)
+Theorem C05_normaliser_keeps_quantities : forall v : value, value_wf v ->
+  coin (value_without_empty_entries v) = coin v /\
+  forall p n, qty (value_without_empty_entries v) p n = qty v p n.
+Proof. exact value_without_empty_entries_sem. Qed.
+Print Assumptions C05_normaliser_keeps_quantities.
+
+(* hence the ledger rule on a body reads the same with the amounts as stored and with the amounts as given (the UTxO values) *)
+Theorem C05_balanced_for_given_amounts : forall (pd kd : N) (given : list (N * value)) (b : tx_body),
+  Forall (fun e : N * value => value_wf (snd e)) given ->
+  (ledger_balanced pd kd (with_inputs (stored given) b) <-> ledger_balanced pd kd (with_inputs given b)).
+Proof. exact ledger_balanced_given. Qed.
+Print Assumptions C05_balanced_for_given_amounts.
 
 (* the rule does not depend on the order of inputs, outputs, certificates, withdrawals, proposals *)
 Theorem C05_order : forall (pd kd : N) (b b' : tx_body),
